@@ -229,6 +229,15 @@ func (c *Ctx) Case(coq string, twin interface{}, key string, nontrivial bool) in
 	return id
 }
 
+// Weigh adds to the current shard's size the cost of a case that is expensive to evaluate on the model beyond
+// the length of its term (call before Case); a case heavier than half a shard starts a shard of its own.
+func (c *Ctx) Weigh(w int) {
+	if w > c.ShardBytes/2 && len(c.shard) > 0 {
+		c.flush()
+	}
+	c.shardBytes += w
+}
+
 func (c *Ctx) Violate(site, what string, input interface{}) {
 	c.Stats.Violations = append(c.Stats.Violations, Violation{Site: site, What: what, Input: input})
 }
